@@ -182,6 +182,32 @@ CLAIMED = {
 }
 REASON_TODO = "not yet built: the Coq model/theorems for this property are scheduled later in the build order of DESIGN.md section 10; nothing is claimed until its check exists"
 
+# later strengthenings of the claims (applied to the texts above; each `old` must occur)
+REWRITE = {
+    "C04": [("PARTIAL: the lift over whole histories (fillers + write_config, no duplicate / no unlisted shard, in-memory = on-disk description, termination of the merge) is not a theorem; it is checked by",
+             "LIFTED over whole histories (c04_every_history_is_exact): for every shard size and every history of sessions (root/sub-directory/nested/reused-directory fillers and multi-writer calls with arbitrary write sequences) "
+             "that completes, every split's summary in the description is exact for its whole subtree (invariant: locally well-formed documents + fresh names + exact summaries, carried through add_shard, the exit rewrite and write_config's per-split merges). "
+             "PARTIAL: no duplicate / no unlisted shard, in-memory = on-disk description and termination of the merge (fuel) are not theorems; they are checked by")],
+    "C08": [("PARTIAL as C04: append-only over whole histories is checked on the implementation:",
+             "LIFTED over whole histories (c08_history_appends_only): whatever sessions follow a prefix of a history, every stored shard file and every shard entry of every list is still there, same list, same position, "
+             "only possibly followed by new entries. PARTIAL: that iteration then returns old+new examples is checked on the implementation:")],
+    "C02": [("PARTIAL: the composition inside each as_* method, the depth-first shard list over nested lists and the tf.data/Rust paths are not theorems; they are checked by whole-pipeline runs:",
+             "COMPOSED: as_numpy_common, as_numpy_iterator, as_numpy_iterator_concurrent and as_numpy_iterator_async (repeat=False) are regenerated from dataset_iteration.py as compositions of these combinators "
+             "(GenPipeline.v: buffer sizes, guards, process_record placement, batches, process_and_list) and proved to yield a permutation of `every example of every selected shard, processed once` for every decoder, shuffle size, "
+             "thread count, random sequence and pool completion order; under a fixed LCG seed the generated compositions equal the real interfaces element by element. "
+             "PARTIAL: the depth-first shard list over nested lists, as_tfdataset and the Rust reader are not theorems; they are checked by whole-pipeline runs:")],
+    "C15": [("PARTIAL: early-drop liveness, the decoders/pyo3 layer and the epoch loop are validated on the implementation only:",
+             "Termination (every pass takes at most 3n+min(T,n)+1 thread steps under every schedule) and early-drop liveness (after a drop in any state whatsoever every worker thread ends, so join returns) are theorems as well. "
+             "PARTIAL: the decoders/pyo3 layer and the epoch loop are validated on the implementation only:")],
+    "C03": [("PARTIAL: order across list files",
+             "And (c03_unshuffled_interfaces_in_order) with shuffle=0 the three NumPy interfaces, as compositions regenerated from dataset_iteration.py, return exactly the examples of the selected shards in list order, "
+             "independent of thread count, random sequences and pool completion order. PARTIAL: order across list files")],
+}
+for _pid, _subs in REWRITE.items():
+    for _old, _new in _subs:
+        assert _old in CLAIMED[_pid]["text"], (_pid, _old[:40])
+        CLAIMED[_pid]["text"] = CLAIMED[_pid]["text"].replace(_old, _new)
+
 m = {
     "version": 1,
     "setup_cmd": "./setup.sh",
